@@ -7,13 +7,16 @@
   key; a key `kdf (shared a b) …` is derivable only from `priv a` or `priv b`.
   Computational secrecy of X25519/HKDF/ChaCha20-Poly1305 is ASSUMED (that is what "symbolic" means).
 
-  What the endpoints do when the peer's ephemeral key arrives as all-zero is part of the model, per
-  tunnel kind (parameter `fb : Kind → Bool` of `decideWith`):
-    the code after fixes/C04-refuse-zero-ephemeral-key.patch (`noFallback`): every kind refuses
-      (ComputeECDH / "encryption required") -> no tunnel, no data frames;
-    the pinned tree (`fallbackV0`): tcp/forward/shell/file refused, but for udp/icmp the key exchange
-      was SKIPPED and datagrams travelled in PLAINTEXT (udp.Association.Encrypt / icmp.Session.Encrypt
-      returned their input when no session key was set; agent.deriveICMPSessionKey returned nil, nil).
+  What an endpoint does when the peer's ephemeral key arrives as all-zero is part of the model, per
+  side and per tunnel kind (`Tables`): it either REFUSES (ComputeECDH / "encryption required": no
+  tunnel, no data frames) or FALLS BACK to plaintext.  On the pinned tree (`pinnedT`) tcp/forward/
+  shell/file refuse on both sides, while for udp/icmp BOTH sides skipped the key exchange and relayed
+  datagrams in plaintext (exit: udp/icmp handlers "encryption disabled", Association/Session.Encrypt
+  return their input without a key; ingress: handleUDPOpenAck skipped the derivation,
+  deriveICMPSessionKey returned nil,nil, relay paths sent data as is).  After
+  fixes/C04-ingress-requires-ephemeral-key.patch the ingress refuses for every kind
+  (`ingressFixedT`); the exit side is unchanged.  Which table describes the tree under test is a
+  regenerated fact (MM/Gen/C04.lean, probed on the compiled code on every run).
   Core Lean only.
 -/
 namespace MM.C04
@@ -53,8 +56,20 @@ def fallbackV0 : Kind → Bool
   | .icmp => true
   | _ => false
 
-/-- Fixed code: no kind does. -/
+/-- No kind does. -/
 def noFallback : Kind → Bool := fun _ => false
+
+/-- Zero-key behaviour of the two sides. -/
+structure Tables where
+  ingress : Kind → Bool
+  exit : Kind → Bool
+
+def pinnedT : Tables := ⟨fallbackV0, fallbackV0⟩
+def ingressFixedT : Tables := ⟨noFallback, fallbackV0⟩
+
+/-- Tables from two probed booleans (does the side fall back at all for udp/icmp?). -/
+def tablesOf (ingressFalls exitFalls : Bool) : Tables :=
+  ⟨fun kd => ingressFalls && fallbackV0 kd, fun kd => exitFalls && fallbackV0 kd⟩
 
 inductive FType where
   | openF | ack | data
@@ -74,7 +89,7 @@ inductive Mode where
   deriving Repr, DecidableEq
 
 /-- Key decision of an endpoint `me` of kind `kd` that received `peerKey` (request id `req`;
-    `meIsInit` = it is the ingress side); `fb` = zero-key fallback table. -/
+    `meIsInit` = it is the ingress side); `fb` = that side's zero-key fallback table. -/
 def decideWith (fb : Kind → Bool) (kd : Kind) (me : Party) (meIsInit : Bool) (req : Nat) (peerKey : Term) : Mode :=
   match peerKey with
   | .zeroKey => if fb kd then .plaintext else .refuse
@@ -82,9 +97,6 @@ def decideWith (fb : Kind → Bool) (kd : Kind) (me : Party) (meIsInit : Bool) (
     if meIsInit then .sealWith (.kdf (dhT me q) req (.pub me) (.pub q))
     else .sealWith (.kdf (dhT me q) req (.pub q) (.pub me))
   | _ => .refuse
-
-/-- The code as it is now. -/
-def decide : Kind → Party → Bool → Nat → Term → Mode := decideWith noFallback
 
 /-- Data frames for the chunks `cs` (atoms) in a mode, direction prefix `pfx`, counters from 0. -/
 def dataFrames (m : Mode) (pfx : Nat) : Nat → List Nat → List Frame
@@ -95,35 +107,64 @@ def dataFrames (m : Mode) (pfx : Nat) : Nat → List Nat → List Frame
     | .plaintext => ⟨.data, [.atom c]⟩ :: dataFrames m pfx (ctr + 1) cs
     | .refuse => []
 
-/-- Everything the ingress emits towards the exit: the open (request id, destination, its public
-    key) and then its data frames, given the responder key `rk` it found in the ack. -/
-def ingressFrames (fb : Kind → Bool) (kd : Kind) (req dest : Nat) (rk : Term) (up : List Nat) : List Frame :=
-  ⟨.openF, [.const req, .const dest, .pub .ingress]⟩ ::
-    dataFrames (decideWith fb kd .ingress true req rk) 0 0 up
+/-- What a transit does to a key field it relays. -/
+inductive KeyEdit where
+  | keep     -- forward as is
+  | zero     -- overwrite with 32 zero bytes
+  | own      -- substitute its own ephemeral public key
+  deriving Repr, DecidableEq
 
-/-- Everything the exit emits towards the ingress, given the initiator key `ik` it found in the open:
-    nothing when it refuses; otherwise the ack (with its public key iff it did a key exchange) and
-    its data frames. -/
-def exitFrames (fb : Kind → Bool) (kd : Kind) (req bound : Nat) (ik : Term) (down : List Nat) : List Frame :=
-  match decideWith fb kd .exit false req ik with
-  | .refuse => []
-  | .plaintext => ⟨.ack, [.const req, .const bound, .zeroKey]⟩ :: dataFrames .plaintext 0x80000000 0 down
-  | .sealWith k => ⟨.ack, [.const req, .const bound, .pub .exit]⟩ :: dataFrames (.sealWith k) 0x80000000 0 down
+def KeyEdit.apply (e : KeyEdit) (k : Term) : Term :=
+  match e with
+  | .keep => k
+  | .zero => .zeroKey
+  | .own => .pub .transit
 
-/-- What a transit does to the two key fields it relays (everything else it forwards as is). -/
+/-- Transit behaviour on the two key fields (everything else it forwards unchanged). -/
 structure Tamper where
-  ikSeenByExit : Term      -- the initiator key the exit receives
-  rkSeenByIngress : Term   -- the responder key the ingress receives
+  onOpen : KeyEdit
+  onAck : KeyEdit
+  deriving Repr, DecidableEq
 
-/-- A relaying transit: forwards both keys untouched. -/
-def passive : Tamper := ⟨.pub .ingress, .pub .exit⟩
+/-- A relaying transit. -/
+def passive : Tamper := ⟨.keep, .keep⟩
 
-/-- All frames that pass through the transit in one tunnel. -/
-def wireWith (fb : Kind → Bool) (kd : Kind) (t : Tamper) (req dest bound : Nat) (up down : List Nat) : List Frame :=
-  ingressFrames fb kd req dest t.rkSeenByIngress up ++ exitFrames fb kd req bound t.ikSeenByExit down
+/-- The exit decides on the initiator key as it arrives. -/
+def exitMode (T : Tables) (kd : Kind) (req : Nat) (t : Tamper) : Mode :=
+  decideWith T.exit kd .exit false req (t.onOpen.apply (.pub .ingress))
 
-/-- The code as it is now. -/
-def wire : Kind → Tamper → Nat → Nat → Nat → List Nat → List Nat → List Frame := wireWith noFallback
+/-- Key field of the ack the exit sends: its public key after a key exchange, all-zero in plaintext
+    mode; no ack at all when it refused. -/
+def ackKey : Mode → Option Term
+  | .sealWith _ => some (.pub .exit)
+  | .plaintext => some .zeroKey
+  | .refuse => none
+
+/-- The ingress decides on the key field of the ack as it arrives (no ack: never established). -/
+def ingressMode (T : Tables) (kd : Kind) (req : Nat) (t : Tamper) : Mode :=
+  match ackKey (exitMode T kd req t) with
+  | none => .refuse
+  | some k => decideWith T.ingress kd .ingress true req (t.onAck.apply k)
+
+def Mode.established : Mode → Bool
+  | .refuse => false
+  | _ => true
+
+/-- All frames that pass through the transit in one tunnel: the open (request id, destination, the
+    ingress key), the ingress's data frames, the exit's ack and the exit's data frames.
+    An exit in plaintext mode relays `down` bytes only when the ingress end came up: UDP replies and
+    ICMP echo replies exist only in answer to datagrams / echo requests the ingress relayed
+    (modelling assumption, named in props/C04.py). -/
+def wireWith (T : Tables) (kd : Kind) (t : Tamper) (req dest bound : Nat) (up down : List Nat) : List Frame :=
+  ⟨.openF, [.const req, .const dest, .pub .ingress]⟩ ::
+  (dataFrames (ingressMode T kd req t) 0 0 up ++
+   match exitMode T kd req t with
+   | .refuse => []
+   | .plaintext =>
+     ⟨.ack, [.const req, .const bound, .zeroKey]⟩ ::
+       (if (ingressMode T kd req t).established then dataFrames .plaintext 0x80000000 0 down else [])
+   | .sealWith k =>
+     ⟨.ack, [.const req, .const bound, .pub .exit]⟩ :: dataFrames (.sealWith k) 0x80000000 0 down)
 
 /-! ### observer knowledge -/
 
